@@ -218,32 +218,44 @@ theorem topSym_g {scope : List String} {n r : String} {iret : Nat} {s t : CState
 theorem topExpr_g {scope : List String} {e : BExp} {r : String} {iret : Nat} {s t : CState}
     (h : (compileExpr e none (some r)).run s = .ok (iret, t)) (bi : BI scope ρ σ0 s)
     (hwf : wfExpG scope e = true) (hsn : selfNot r e = false) :
-    TopG scope ρ σ0 r (e.eval ρ) (hasConst e) s t iret := by
-  have gen : ∀ (sym : Option String), (compileExpr e none sym).run s = .ok (iret, t) →
-      (isLeaf e = true → sym = none) → (∀ x, sym = some x → selfNot x e = false) →
-      TopG scope ρ σ0 r (e.eval ρ) (hasConst e) s t iret := by
-    intro sym h' hl hs
-    obtain ⟨gi, fr, hv, _⟩ := exprG (σ0 := σ0) (s0 := s) bi.knOK e hwf none sym h' bi.start
-      (by intro d hd; cases hd) (fun hle => ⟨rfl, hl hle⟩) hs
-    have res := hv rfl
-    obtain ⟨f1, f2, f4, f3⟩ := top_frame (nc := hasConst e) (iret := iret) fr (fun _ _ hh => by cases hh)
-      (fun hn _ hh => by rw [hn] at hh; cases hh)
+    TopG scope ρ σ0 r (e.eval ρ) (hasConst e && !isLeaf e) s t iret := by
+  have core : ∀ {E : Nat → Prop}, GI (Known scope) ρ σ0 s t →
+      Fr (Known scope) σ0 s s t (fun q => (none : Option Nat) = some q) (· = iret) NoN E →
+      ResG (Known scope) ρ σ0 s s t e iret → ((hasConst e && !isLeaf e) = false → ∀ q, E q → q = iret) →
+      TopG scope ρ σ0 r (e.eval ρ) (hasConst e && !isLeaf e) s t iret := by
+    intro E gi fr res hE
+    obtain ⟨f1, f2, f4, f3⟩ := top_frame (nc := hasConst e && !isLeaf e) (iret := iret) fr
+      (fun _ _ hh => by cases hh) hE
     refine ⟨gi.monoKn (fun _ hh => hh.1), res.nav, res.val, ?_, pend_top bi fr (fun _ hh => hh), f1, f2, f4, f3⟩
     intro hm
     have hav := gi.marked_av0 hm
     exact (res.fresh hav).2 hm
+  have gen : isLeaf e = false → TopG scope ρ σ0 r (e.eval ρ) (hasConst e && !isLeaf e) s t iret := by
+    intro hl
+    obtain ⟨gi, fr, hv, _⟩ := exprG (σ0 := σ0) (s0 := s) bi.knOK e hwf none (some r) h bi.start
+      (by intro d hd; cases hd) (fun hle => by rw [hl] at hle; cases hle) (by intro x hx; cases hx; exact hsn)
+    refine core gi fr (hv rfl) (fun hn _ hh => ?_)
+    rw [hl] at hn
+    simp only [Bool.not_false, Bool.and_true] at hn
+    rw [hn] at hh; cases hh
   cases e with
   | sym n =>
     unfold compileExpr at h
     exact topSym_g h bi (by simpa [wfExpG] using hwf)
   | tt =>
-    exact gen none (by unfold compileExpr at h ⊢; exact h) (fun _ => rfl) (by intro x hx; cases hx)
+    have h' : (compileExpr .tt none none).run s = .ok (iret, t) := by unfold compileExpr at h ⊢; exact h
+    obtain ⟨gi, fr, hv, _⟩ := exprGc_tt (σ0 := σ0) (s0 := s) bi.knOK.tt none none h' bi.start
+      (by intro d hd; cases hd) (fun _ => ⟨rfl, rfl⟩) (by intro x hx; cases hx)
+    exact core gi fr (hv rfl) (fun _ _ hh => hh)
   | ff =>
-    exact gen none (by unfold compileExpr at h ⊢; exact h) (fun _ => rfl) (by intro x hx; cases hx)
-  | not a => exact gen (some r) h (fun hl => by cases hl) (by intro x hx; cases hx; exact hsn)
-  | and l => exact gen (some r) h (fun hl => by cases hl) (by intro x hx; cases hx; exact hsn)
-  | or l => exact gen (some r) h (fun hl => by cases hl) (by intro x hx; cases hx; exact hsn)
-  | xor l => exact gen (some r) h (fun hl => by cases hl) (by intro x hx; cases hx; exact hsn)
+    have h' : (compileExpr .ff none none).run s = .ok (iret, t) := by unfold compileExpr at h ⊢; exact h
+    obtain ⟨gi, fr, hv, _⟩ := exprGc_ff (σ0 := σ0) (s0 := s) bi.knOK.ff none none h' bi.start
+      (by intro d hd; cases hd) (fun _ => ⟨rfl, rfl⟩) (by intro x hx; cases hx)
+    exact core gi fr (hv rfl) (fun _ _ hh => hh)
+  | not a => exact gen rfl
+  | and l => exact gen rfl
+  | or l => exact gen rfl
+  | xor l => exact gen rfl
   | ite a b c => simp [wfExpG] at hwf
   | imp a b => simp [wfExpG] at hwf
 
